@@ -7,10 +7,13 @@ CONSTANTS
   MaxOps = 4
   MaxTx = 2
   OwnerFix = TRUE
+  AttachGuard = TRUE
+  SaveGuard = TRUE
   ObjSeq <- Seq3b
+  Bias = FALSE
   Quiet = TRUE
 INIT Init
 NEXT Next
 VIEW view
-INVARIANTS RefinesDecl RefCountExact OwnerIffSingle NoDangling ReachableUnlessCyclic NoPanic
+INVARIANTS RefinesDecl RefCountExact OwnerIffSingle NoDangling ReachableUnlessCyclic
 CHECK_DEADLOCK FALSE
